@@ -66,7 +66,7 @@ class Scn:
 def rng_for(prop, seed, salt=""):
     return random.Random((zlib.crc32((prop + salt).encode()) << 20) ^ (seed * 1000003 + 17))
 
-def run_scenarios(driver_exe, replayer_exe, scns, workdir, timeout=3000, shards=8):
+def run_scenarios(driver_exe, replayer_exe, scns, workdir, timeout=3000, shards=16):
     """returns dict(runs, mismatches[list], viols[list], aborts[list], per[sid] = (runs, mism, exhaustive))"""
     os.makedirs(workdir, exist_ok=True)
     res = {"runs": 0, "mismatches": [], "viols": [], "aborts": [], "per": {}, "errors": []}
